@@ -653,7 +653,10 @@ def _mk_freq(kind):
         np_, dp = num_to_poly(n), num_to_poly(d)
         scale = simplify_scalar((np_ * dp).inverse())
         length = np_ if kind == "full" else as_poly(floordiv(it, np_, 2, node)) + 1
-        e = Poly.atom(("k1", kind)) * num_to_poly(scale)
+        # symmetric-layout mode (C08): pretend every axis carries signed wavenumbers so that formulas
+        # can be compared under axis permutations; the halved-axis layout itself is C04's subject
+        akind = "full" if getattr(it.ctx, "symmetric_layout", False) else kind
+        e = Poly.atom(("k1", akind)) * num_to_poly(scale)
         return Tens((length,), [e], {"freq_n": np_})
 
     return f
